@@ -572,7 +572,14 @@ func (cs *CaseStatement) Idx0() file.Idx {
 
 // Idx1 implements Node.
 func (cs *CaseStatement) Idx1() file.Idx {
-	return cs.Consequent[len(cs.Consequent)-1].Idx1()
+	if n := len(cs.Consequent); n > 0 {
+		return cs.Consequent[n-1].Idx1()
+	}
+	// A clause without statements, "case 1:" or "default:"
+	if cs.Test != nil {
+		return cs.Test.Idx1()
+	}
+	return cs.Case + file.Idx(len("default"))
 }
 
 // expression implements Statement.
@@ -955,10 +962,24 @@ type Program struct {
 
 // Idx0 implements Node.
 func (p *Program) Idx0() file.Idx {
+	if len(p.Body) == 0 {
+		return p.start()
+	}
 	return p.Body[0].Idx0()
 }
 
 // Idx1 implements Node.
 func (p *Program) Idx1() file.Idx {
+	if len(p.Body) == 0 {
+		return p.start()
+	}
 	return p.Body[len(p.Body)-1].Idx1()
+}
+
+// start returns the index of the start of the file, the span of a program without statements.
+func (p *Program) start() file.Idx {
+	if p.File == nil {
+		return 0
+	}
+	return file.Idx(p.File.Base())
 }
